@@ -192,6 +192,13 @@ func (w *writeResHeaders) writeFrame(ctx writeContext) error {
 		panic("unexpected empty hpack")
 	}
 
+	if len(headerBlock) == 0 && w.endStream {
+		// None of the declared trailers was set by the handler, so there
+		// is no header field to send. Still finish the stream, otherwise
+		// the peer never receives END_STREAM.
+		return ctx.Framer().WriteData(w.streamID, true, nil)
+	}
+
 	state.H2ResHeaderOriginalSize.Inc(uint(headerSize))
 	state.H2ResHeaderCompressSize.Inc(uint(len(headerBlock)))
 
